@@ -3348,7 +3348,24 @@ class QuicConnection:
             frame_type = QuicFrameType.PADDING
             reason_phrase = ""
 
+        # the frame has to fit in what is left of the packet: shorten the reason
+        # phrase rather than fail to send the close (and keep it valid UTF-8)
         reason_bytes = reason_phrase.encode("utf8")
+        max_reason_length = max(
+            0,
+            builder.remaining_buffer_space
+            - (
+                APPLICATION_CLOSE_FRAME_CAPACITY
+                if frame_type is None
+                else TRANSPORT_CLOSE_FRAME_CAPACITY
+            ),
+        )
+        if len(reason_bytes) > max_reason_length:
+            reason_bytes = (
+                reason_bytes[:max_reason_length]
+                .decode("utf8", errors="ignore")
+                .encode("utf8")
+            )
         reason_length = len(reason_bytes)
 
         if frame_type is None:
